@@ -664,6 +664,12 @@ def accept_guards(cx, facts, R):
             if rb and base_arg:
                 rows.append((str(rb[1]), str(rb[2])))
                 where[("idx", i)] = rows[-1]
+            elif rb and getattr(b, "changed", False):
+                # a range of a sub-slice of buf that is itself known as buf[off ..] (`let Some(frame) = buf.get(..n)`, then frame[a..b])
+                ar = a.abs_range(st, t["args"][0], t["args"][1])
+                if ar is not None and ar[0] == 1:
+                    rows.append((str(ar[1]), str(ar[2])))
+                    where[("idx", i)] = rows[-1]
         # payload = &buf[48..E]; (query, body) = payload.split_at(n)  ==  buf[48..48+n], buf[48+n..E]
         for i, t in b.calls():
             if t["callee"]["name"] != "split_at" or len(t["args"]) != 2:
